@@ -200,6 +200,9 @@ def create_allocation_list(context, data, consumers):
                 context, consumer_uuid)
             for allocation in allocations:
                 allocation.used = 0
+                # Use the consumer whose generation was checked against the
+                # request, not the one freshly read with the allocations.
+                allocation.consumer = consumer
                 allocation_objects.append(allocation)
 
     return allocation_objects
@@ -437,6 +440,9 @@ def _set_allocations_for_consumer(req, schema):
         allocations = alloc_obj.get_all_by_consumer_id(context, consumer_uuid)
         for allocation in allocations:
             allocation.used = 0
+            # Use the consumer whose generation was checked against the
+            # request, not the one freshly read with the allocations.
+            allocation.consumer = consumer
             allocation_objects.append(allocation)
     else:
         # If the body includes an allocation for a resource provider
